@@ -229,6 +229,8 @@ class Instance:
             elif isinstance(strategy, SerializationStrategy):
                 serialize_option = strategy.serialize
             if serialize_option is not None:
+                # prevent recursion
+                self.metadata.pop("serialization_strategy", None)
                 return serialize_option
         return None
 
